@@ -15,23 +15,24 @@ Definition agree1 (cl gv : option ver) : Prop := cl = gv \/ (dead cl /\ dead gv)
 (* ValidateSecret rejects every unsupported type (its final return) *)
 Definition oracle_ok (v : ver) : Prop := supported_type (vtype v) = false -> vvalid v = false.
 
-(* admissible cluster event: the oracle fact, and an update keeps the type (Secret.type is
-   immutable; a type change is a delete followed by a create) *)
-Definition cev_ok (o : objects) (e : cev) : Prop :=
+(* admissible cluster event: Kubernetes namespace names contain no slash, the oracle fact, and an
+   update keeps the type (Secret.type is immutable; a type change is a delete followed by a create) *)
+Definition cev_ok (c : cstate) (e : cev) : Prop :=
   match e with
   | CPut ns name v =>
-      oracle_ok v /\
-      match o (key_of ns name) with
+      no_slash ns /\ oracle_ok v /\
+      match c_api c (key_of ns name) with
       | Some v0 => supported_type (vtype v0) = supported_type (vtype v)
       | None => True
       end
+  | CDel ns name => no_slash ns
   | _ => True
   end.
 
 Fixpoint chist_ok (c : cstate) (h : list cev) : Prop :=
   match h with
   | [] => True
-  | e :: r => cev_ok (c_objs c) e /\ chist_ok (fst (cstep c e)) r
+  | e :: r => cev_ok c e /\ chist_ok (fst (cstep c e)) r
   end.
 
 Definition in_pendb (k : string) (q : list qtask) : bool := existsb (fun t => String.eqb (task_key t) k) q.
@@ -89,9 +90,82 @@ Proof.
     rewrite gver_sync_op. rewrite String.eqb_sym, H. apply String.eqb_eq in H. rewrite H. reflexivity.
 Qed.
 
-Definition Kinv (c : cstate) (g : ghost) : Prop :=
-  (forall k v, c_objs c k = Some v -> oracle_ok v) /\
-  (forall k, in_pendb k (c_pend c) = true \/ agree1 (c_objs c k) (gver g k)).
+Lemma in_enq_old t t' q : In t q -> In t (enq t' q).
+Proof.
+  induction q as [|x r IH]; cbn; [tauto|].
+  destruct (String.eqb (task_key t') (task_key x)); cbn; [auto|]. intros [->|H]; auto.
+Qed.
+
+Lemma in_enq_inv t t' q : In t (enq t' q) -> t = t' \/ In t q.
+Proof.
+  induction q as [|x r IH]; cbn; [intros [<-|[]]; auto|].
+  destruct (String.eqb (task_key t') (task_key x)); cbn; [auto|].
+  intros [->|H]; [auto|]. destruct (IH H); auto.
+Qed.
+
+Lemma enq_has t q : exists t', In t' (enq t q) /\ task_key t' = task_key t.
+Proof.
+  induction q as [|x r IH]; cbn; [exists t; auto|].
+  destruct (String.eqb (task_key t) (task_key x)) eqn:E.
+  - exists x. split; [cbn; auto|]. apply String.eqb_eq in E. auto.
+  - destruct IH as (t' & I & K). exists t'. cbn. auto.
+Qed.
+
+Lemma in_pendb_true k q : in_pendb k q = true <-> exists t, In t q /\ task_key t = k.
+Proof.
+  unfold in_pendb. rewrite existsb_exists. split; intros (t & I & H); exists t; split; auto.
+  - apply String.eqb_eq. exact H.
+  - apply String.eqb_eq in H. exact H.
+Qed.
+
+Lemma ns_key_true ns keys k : ns_key ns keys k = true <-> exists t, In t keys /\ fst t = ns /\ task_key t = k.
+Proof.
+  unfold ns_key, in_ns. rewrite existsb_exists. split.
+  - intros (t & I & H). apply andb_true_iff in H. destruct H as [A B].
+    apply String.eqb_eq in A. apply String.eqb_eq in B. eauto.
+  - intros (t & I & A & B). exists t. split; [exact I|]. rewrite A, B, !String.eqb_refl. reflexivity.
+Qed.
+
+Lemma mem_s_true x l : mem_s x l = true <-> In x l.
+Proof.
+  unfold mem_s. rewrite existsb_exists. split.
+  - intros (y & I & H). apply String.eqb_eq in H. subst. exact I.
+  - intros I. exists x. split; [exact I|apply String.eqb_refl].
+Qed.
+
+(* the queue after the Add events of a namespace *)
+Lemma fold_enq_mono (P : qtask -> bool) l : forall q k,
+  in_pendb k q = true -> in_pendb k (fold_left (fun q t => if P t then enq t q else q) l q) = true.
+Proof.
+  induction l as [|x r IH]; intros q k H; cbn; [exact H|].
+  apply IH. destruct (P x); [apply in_pendb_enq_mono|]; exact H.
+Qed.
+
+Lemma fold_enq_in (P : qtask -> bool) l : forall q t,
+  In t l -> P t = true -> in_pendb (task_key t) (fold_left (fun q t => if P t then enq t q else q) l q) = true.
+Proof.
+  induction l as [|x r IH]; intros q t I H; cbn; [destruct I|].
+  destruct I as [->|I].
+  - apply fold_enq_mono. rewrite H. apply in_pendb_enq_self.
+  - apply IH; assumption.
+Qed.
+
+Lemma task_key_inj t1 t2 : no_slash (fst t1) -> no_slash (fst t2) -> task_key t1 = task_key t2 -> fst t1 = fst t2.
+Proof.
+  unfold task_key. intros A B E. destruct (key_of_inj _ _ _ _ A B E). assumption.
+Qed.
+
+(* The invariant.
+     KO  every object of the cluster satisfies the oracle fact
+     V   what an informer cache holds is an object of the cluster, of a known key in a watched namespace
+     NS  the known keys have Kubernetes namespace names
+     KA  for every key: a task is queued, or the store's view agrees with the informer cache *)
+Record Kinv (c : cstate) (g : ghost) : Prop := mkK {
+  k_o : forall k v, c_api c k = Some v -> oracle_ok v;
+  k_v : forall k v, c_seen c k = Some v ->
+          c_api c k = Some v /\ exists t, In t (c_keys c) /\ task_key t = k /\ mem_s (fst t) (c_unw c) = false;
+  k_ns : forall t, In t (c_keys c) -> no_slash (fst t);
+  k_a : forall k, in_pendb k (c_pend c) = true \/ agree1 (c_seen c k) (gver g k) }.
 
 Lemma agree1_dead_l cl gv v :
   agree1 cl gv -> cl = Some v -> vvalid v = false -> dead gv.
@@ -99,47 +173,151 @@ Proof.
   intros [E|[_ D]] C V; [|exact D]. subst. unfold dead. cbn. rewrite V. reflexivity.
 Qed.
 
+Lemma agree1_none gv : agree1 None gv -> dead gv.
+Proof. intros [<-|[_ D]]; [reflexivity|exact D]. Qed.
+
+(* a cached object under key_of ns name belongs to namespace ns, which is therefore watched *)
+Lemma seen_watched c g ns name v :
+  Kinv c g -> no_slash ns -> c_seen c (key_of ns name) = Some v -> mem_s ns (c_unw c) = false.
+Proof.
+  intros K S H. destruct (k_v c g K _ _ H) as (_ & t & I & E & W).
+  assert (fst t = ns) as <-; [|exact W].
+  apply (task_key_inj t (ns, name)); [apply (k_ns c g K); exact I|exact S|exact E].
+Qed.
+
 Lemma kinv_step c g e :
-  Kinv c g -> cev_ok (c_objs c) e ->
+  Kinv c g -> cev_ok c e ->
   Kinv (fst (cstep c e)) (fold_left gstep (snd (cstep c e)) g).
 Proof.
-  intros [KO KA] OK. destruct e as [ns name v|ns name| |k0]; cbn [cstep].
+  intros K OK. pose proof K as [KO KV KN KA].
+  destruct e as [ns name v|ns name| |k0| |ns|ns]; cbn [cstep].
   - (* CPut *)
-    destruct OK as [OV OT]. unfold Kinv. cbn [fst snd fold_left c_objs c_pend]. split.
-    + intros k v' H. destruct (string_dec k (key_of ns name)) as [->|N].
-      * rewrite oset_eq in H. injection H as <-. exact OV.
-      * rewrite oset_neq in H by exact N. eapply KO; eauto.
-    + intros k. destruct (string_dec k (key_of ns name)) as [->|N].
-      * destruct (supported_type (vtype v)) eqn:S.
-        -- left. apply (in_pendb_enq_self (ns, name)).
-        -- destruct (KA (key_of ns name)) as [P|A]; [left; exact P|]. right.
-           rewrite oset_eq. right. split; [unfold dead; cbn; rewrite (OV S); reflexivity|].
-           destruct (c_objs c (key_of ns name)) as [v0|] eqn:O.
-           ++ eapply agree1_dead_l; [exact A|reflexivity|]. apply (KO _ _ O). exact OT.
-           ++ destruct A as [<-|[_ D]]; [reflexivity|exact D].
-      * rewrite oset_neq by exact N. destruct (KA k) as [P|A]; [left|right; exact A].
-        destruct (supported_type (vtype v)); [apply in_pendb_enq_mono|]; exact P.
+    destruct OK as (SL & OV & OT).
+    assert (KN' : forall t, In t (enq (ns, name) (c_keys c)) -> no_slash (fst t)).
+    { intros t I. destruct (in_enq_inv _ _ _ I) as [->|I']; [exact SL|auto]. }
+    assert (KO' : forall k v', oset (c_api c) (key_of ns name) (Some v) k = Some v' -> oracle_ok v').
+    { intros k v' H. destruct (string_dec k (key_of ns name)) as [->|N].
+      - rewrite oset_eq in H. injection H as <-. exact OV.
+      - rewrite oset_neq in H by exact N. eapply KO; eauto. }
+    destruct (mem_s ns (c_unw c)) eqn:UN; cbn [fst snd fold_left].
+    + (* the namespace is not watched: only the API object changes *)
+      constructor; cbn [c_api c_seen c_pend c_keys c_unw]; auto.
+      intros k v' H. destruct (KV k v' H) as (A & t & I & E & W).
+      assert (k <> key_of ns name).
+      { intros ->. rewrite (seen_watched c g ns name v' K SL H) in UN. discriminate. }
+      rewrite oset_neq by assumption. split; [exact A|]. exists t. split; [apply in_enq_old; exact I|auto].
+    + constructor; cbn [c_api c_seen c_pend c_keys c_unw]; auto.
+      * intros k v' H. destruct (string_dec k (key_of ns name)) as [->|N].
+        -- rewrite oset_eq in *. split; [exact H|].
+           destruct (enq_has (ns, name) (c_keys c)) as (t' & I & E). exists t'. split; [exact I|]. split; [exact E|].
+           assert (fst t' = ns) as ->; [|exact UN].
+           apply (task_key_inj t' (ns, name)); [apply KN'; exact I|exact SL|exact E].
+        -- rewrite oset_neq in * by exact N. destruct (KV k v' H) as (A & t & I & E & W).
+           split; [exact A|]. exists t. split; [apply in_enq_old; exact I|auto].
+      * intros k. destruct (string_dec k (key_of ns name)) as [->|N].
+        -- destruct (supported_type (vtype v)) eqn:S.
+           ++ left. apply (in_pendb_enq_self (ns, name)).
+           ++ destruct (KA (key_of ns name)) as [P|A]; [left; exact P|]. right.
+              rewrite oset_eq. right. split; [unfold dead; cbn; rewrite (OV S); reflexivity|].
+              destruct (c_seen c (key_of ns name)) as [v0|] eqn:O.
+              ** eapply agree1_dead_l; [exact A|reflexivity|].
+                 destruct (KV _ _ O) as (A0 & _). rewrite A0 in OT. apply (KO _ _ A0). exact OT.
+              ** apply agree1_none. exact A.
+        -- rewrite oset_neq by exact N. destruct (KA k) as [P|A]; [left|right; exact A].
+           destruct (supported_type (vtype v)); [apply in_pendb_enq_mono|]; exact P.
   - (* CDel *)
-    destruct (c_objs c (key_of ns name)) as [v0|] eqn:O; unfold Kinv; cbn [fst snd fold_left c_objs c_pend]; [|split; assumption].
-    split.
-    + intros k v' H. destruct (string_dec k (key_of ns name)) as [->|N].
-      * rewrite oset_eq in H. discriminate.
-      * rewrite oset_neq in H by exact N. eapply KO; eauto.
-    + intros k. destruct (string_dec k (key_of ns name)) as [->|N].
-      * destruct (supported_type (vtype v0)) eqn:S.
-        -- left. apply (in_pendb_enq_self (ns, name)).
-        -- destruct (KA (key_of ns name)) as [P|A]; [left; exact P|]. right.
-           rewrite oset_eq. right. split; [reflexivity|].
-           eapply agree1_dead_l; [exact A|exact O|]. apply (KO _ _ O). exact S.
-      * rewrite oset_neq by exact N. destruct (KA k) as [P|A]; [left|right; exact A].
-        destruct (supported_type (vtype v0)); [apply in_pendb_enq_mono|]; exact P.
+    assert (KO' : forall k v', oset (c_api c) (key_of ns name) None k = Some v' -> oracle_ok v').
+    { intros k v' H. destruct (string_dec k (key_of ns name)) as [->|N].
+      - rewrite oset_eq in H. discriminate.
+      - rewrite oset_neq in H by exact N. eapply KO; eauto. }
+    destruct (mem_s ns (c_unw c)) eqn:UN; cbn [fst snd fold_left].
+    + constructor; cbn [c_api c_seen c_pend c_keys c_unw]; auto.
+      intros k v' H. destruct (KV k v' H) as (A & t & I & E & W).
+      assert (k <> key_of ns name).
+      { intros ->. rewrite (seen_watched c g ns name v' K OK H) in UN. discriminate. }
+      rewrite oset_neq by assumption. eauto.
+    + destruct (c_seen c (key_of ns name)) as [v0|] eqn:O; cbn [fst snd fold_left].
+      * constructor; cbn [c_api c_seen c_pend c_keys c_unw]; auto.
+        -- intros k v' H. destruct (string_dec k (key_of ns name)) as [->|N].
+           ++ rewrite oset_eq in H. discriminate.
+           ++ rewrite oset_neq in * by exact N. apply KV. exact H.
+        -- intros k. destruct (string_dec k (key_of ns name)) as [->|N].
+           ++ destruct (supported_type (vtype v0)) eqn:S.
+              ** left. apply (in_pendb_enq_self (ns, name)).
+              ** destruct (KA (key_of ns name)) as [P|A]; [left; exact P|]. right.
+                 rewrite oset_eq. right. split; [reflexivity|].
+                 eapply agree1_dead_l; [exact A|exact O|].
+                 destruct (KV _ _ O) as (A0 & _). apply (KO _ _ A0). exact S.
+           ++ rewrite oset_neq by exact N. destruct (KA k) as [P|A]; [left|right; exact A].
+              destruct (supported_type (vtype v0)); [apply in_pendb_enq_mono|]; exact P.
+      * constructor; cbn [c_api c_seen c_pend c_keys c_unw]; auto.
+        intros k v' H. destruct (KV k v' H) as (A & W). split; [|exact W].
+        assert (k <> key_of ns name) by (intros ->; congruence).
+        rewrite oset_neq by assumption. exact A.
   - (* CDrain *)
-    unfold Kinv. cbn [fst snd c_objs c_pend]. split; [exact KO|]. intros k. right.
-    destruct (in_pendb k (c_pend c)) eqn:P.
+    cbn [fst snd]. constructor; cbn [c_api c_seen c_pend c_keys c_unw]; auto.
+    intros k. right. destruct (in_pendb k (c_pend c)) eqn:P.
     + left. symmetry. apply gver_sync_pend. exact P.
     + rewrite gver_sync_other by exact P. destruct (KA k) as [P'|A]; [congruence|exact A].
   - (* CGet *)
-    unfold Kinv. cbn [fst snd fold_left]. split; [exact KO|]. intros k. rewrite gver_get. apply KA.
+    cbn [fst snd fold_left]. constructor; auto. intros k. rewrite gver_get. apply KA.
+  - (* CStart *)
+    cbn [fst snd]. constructor; auto. intros k.
+    destruct (in_pendb k (filter (fun t => supported_obj (c_seen c (task_key t))) (c_keys c))) eqn:P.
+    + right. left. symmetry. apply gver_sync_pend. exact P.
+    + rewrite gver_sync_other by exact P. apply KA.
+  - (* CUnwatch *)
+    destruct (mem_s ns (c_unw c)) eqn:UN; cbn [fst snd fold_left]; [exact K|].
+    set (seen' := fun k => if ns_key ns (c_keys c) k then None else c_seen c k).
+    set (ts := filter (fun t => in_ns ns t && is_some (c_seen c (task_key t))) (c_keys c)).
+    assert (OPS : map (fun t => Delete (task_key t)) ts = map (sync_op seen') ts).
+    { apply map_ext_in. intros t I. apply filter_In in I. destruct I as [I H].
+      apply andb_true_iff in H. destruct H as [H _]. unfold sync_op, seen'.
+      assert (ns_key ns (c_keys c) (task_key t) = true) as ->; [|reflexivity].
+      apply ns_key_true. exists t. unfold in_ns in H. apply String.eqb_eq in H. auto. }
+    rewrite OPS.
+    constructor; cbn [c_api c_seen c_pend c_keys c_unw]; auto.
+    + intros k v' H. fold seen' in H. unfold seen' in H.
+      destruct (ns_key ns (c_keys c) k) eqn:NK; [discriminate|].
+      destruct (KV k v' H) as (A & t & I & E & W). split; [exact A|]. exists t. split; [exact I|]. split; [exact E|].
+      unfold mem_s in *. cbn [existsb]. rewrite W, orb_false_r. apply String.eqb_neq. intros F.
+      assert (ns_key ns (c_keys c) k = true) by (apply ns_key_true; eauto). congruence.
+    + intros k. fold seen'.
+      destruct (in_pendb k ts) eqn:P.
+      * right. left. symmetry. apply gver_sync_pend. exact P.
+      * rewrite gver_sync_other by exact P.
+        destruct (KA k) as [P'|A]; [left; exact P'|right].
+        unfold seen'. destruct (ns_key ns (c_keys c) k) eqn:NK; [|exact A].
+        destruct (c_seen c k) as [v0|] eqn:O; [|exact A]. exfalso.
+        apply ns_key_true in NK. destruct NK as (t & I & F & E).
+        assert (in_pendb k ts = true); [|congruence].
+        apply in_pendb_true. exists t. split; [|exact E]. apply filter_In. split; [exact I|].
+        unfold in_ns. rewrite F, String.eqb_refl, E, O. reflexivity.
+  - (* CWatch *)
+    destruct (mem_s ns (c_unw c)) eqn:UN; cbn [fst snd fold_left]; [|exact K].
+    constructor; cbn [c_api c_seen c_pend c_keys c_unw]; auto.
+    + intros k v' H. destruct (ns_key ns (c_keys c) k) eqn:NK.
+      * split; [exact H|]. apply ns_key_true in NK. destruct NK as (t & I & F & E).
+        exists t. split; [exact I|]. split; [exact E|]. rewrite F.
+        destruct (mem_s ns (filter (fun n => negb (String.eqb n ns)) (c_unw c))) eqn:M; [|reflexivity].
+        apply mem_s_true in M. apply filter_In in M. destruct M as [_ M]. rewrite String.eqb_refl in M. discriminate.
+      * destruct (KV k v' H) as (A & t & I & E & W). split; [exact A|]. exists t. split; [exact I|]. split; [exact E|].
+        destruct (mem_s (fst t) (filter (fun n => negb (String.eqb n ns)) (c_unw c))) eqn:M; [|reflexivity].
+        apply mem_s_true in M. apply filter_In in M. destruct M as [M _]. apply mem_s_true in M. congruence.
+    + intros k. destruct (KA k) as [P|A]; [left; apply fold_enq_mono; exact P|].
+      destruct (ns_key ns (c_keys c) k) eqn:NK; [|right; exact A].
+      pose proof NK as NK'. apply ns_key_true in NK'. destruct NK' as (t & I & F & E).
+      destruct (supported_obj (c_api c k)) eqn:S.
+      * left. rewrite <- E. apply fold_enq_in; [exact I|]. unfold in_ns. rewrite F, String.eqb_refl, E. exact S.
+      * right. right.
+        assert (SN : c_seen c k = None).
+        { destruct (c_seen c k) as [v0|] eqn:O; [|reflexivity]. exfalso.
+          destruct (KV k v0 O) as (_ & t' & I' & E' & W').
+          assert (fst t' = fst t) by (apply task_key_inj; [apply KN; exact I'|apply KN; exact I|congruence]).
+          rewrite H, F in W'. congruence. }
+        rewrite SN in A. split; [|apply agree1_none; exact A].
+        destruct (c_api c k) as [v0|] eqn:O; [|reflexivity].
+        unfold dead. cbn. cbn in S. rewrite (KO _ _ O S). reflexivity.
 Qed.
 
 Lemma kinv_run h : forall c g,
@@ -154,16 +332,28 @@ Proof.
 Qed.
 
 Lemma kinv_init : Kinv cinit gempty.
-Proof. split; [intros k v H; discriminate|]. intros k. right. left. reflexivity. Qed.
+Proof.
+  constructor; cbn; try (intros; discriminate); try tauto.
+  intros k. right. left. reflexivity.
+Qed.
 
-(* After every admissible cluster-level history, for every Secret without an outstanding task:
-   the store's current version is the cluster's object, or neither side has a valid version. *)
+(* After every admissible cluster-level history (events, worker runs, the start-up step,
+   namespaces losing and getting the watch label), for every Secret without an outstanding task:
+   the store's current version is the object in the informer cache (the cluster's object if its
+   namespace is watched, nothing otherwise), or neither side has a valid version. *)
 Theorem controller_agrees h k :
   chist_ok cinit h -> in_pendb k (c_pend (fst (crun cinit h))) = false ->
-  agree1 (c_objs (fst (crun cinit h)) k) (cur (compile h) k).
+  agree1 (c_seen (fst (crun cinit h)) k) (cur (compile h) k).
 Proof.
-  intros OK P. destruct (kinv_run h cinit gempty kinv_init OK) as [_ KA].
+  intros OK P. destruct (kinv_run h cinit gempty kinv_init OK) as [_ _ _ KA].
   destruct (KA k) as [P'|A]; [congruence|]. exact A.
+Qed.
+
+(* what an informer cache holds is an object of the cluster *)
+Theorem seen_is_cluster_object h k v :
+  chist_ok cinit h -> c_seen (fst (crun cinit h)) k = Some v -> c_api (fst (crun cinit h)) k = Some v.
+Proof.
+  intros OK H. destruct (kinv_run h cinit gempty kinv_init OK) as [_ KV _ _]. apply (KV k v H).
 Qed.
 
 Section CtlClauses.
@@ -176,7 +366,7 @@ Section CtlClauses.
     chist_ok cinit h -> hist_ok cadel U gempty (compile h) -> U k ->
     in_pendb k (c_pend (fst (crun cinit h))) = false ->
     In f (names_of_key k) -> lookup f (files (run cadel (compile h))) = Some c ->
-    exists v, c_objs (fst (crun cinit h)) k = Some v /\ vvalid v = true /\
+    exists v, c_seen (fst (crun cinit h)) k = Some v /\ vvalid v = true /\
               assoc f (derived (key_to_fname k) v) = Some c.
   Proof.
     intros CO HO Uk P Hf L.
@@ -191,7 +381,7 @@ Section CtlClauses.
   Theorem controller_gone_means_removed h k :
     chist_ok cinit h -> hist_ok cadel U gempty (compile h) -> U k ->
     in_pendb k (c_pend (fst (crun cinit h))) = false ->
-    dead (c_objs (fst (crun cinit h)) k) ->
+    dead (c_seen (fst (crun cinit h)) k) ->
     forall f, In f (names_of_key k) -> lookup f (files (run cadel (compile h))) = None.
   Proof.
     intros CO HO Uk P D. apply (no_valid_no_files cadel U U_disj); auto.
@@ -205,7 +395,7 @@ End CtlClauses.
 Theorem controller_get_reports_error cadel h k st' p e :
   chist_ok cinit h -> in_pendb k (c_pend (fst (crun cinit h))) = false ->
   step cadel (run cadel (compile h)) (Get k) = (st', Some (p, e)) ->
-  e = deadb (c_objs (fst (crun cinit h)) k).
+  e = deadb (c_seen (fst (crun cinit h)) k).
 Proof.
   intros CO P S. rewrite (get_reports_error cadel _ k st' p e S).
   unfold get_err_expected.
@@ -231,3 +421,85 @@ Proof.
   split; [cbn; repeat split; auto; try discriminate|].
   repeat split; vm_compute; reflexivity.
 Qed.
+
+(* ---------- nothing is written unless a resource asks: in particular at start-up ---------- *)
+
+Definition is_lookup (o : op) : bool :=
+  match o with Get _ => true | ForcePath _ _ => true | _ => false end.
+
+(* a store history without any lookup leaves the secrets directory empty *)
+Theorem no_lookup_no_files cadel U h :
+  hist_ok cadel U gempty h -> forallb (fun o => negb (is_lookup o)) h = true ->
+  files (run cadel h) = [].
+Proof.
+  intros OK NL.
+  destruct (files (run cadel h)) as [|[f c] r] eqn:F; [reflexivity|]. exfalso.
+  assert (L : lookup f (files (run cadel h)) = Some c) by (rewrite F; cbn; rewrite String.eqb_refl; reflexivity).
+  destruct (every_file_justified cadel U h OK f c L) as (k & v & _ & _ & _ & A & _).
+  destruct (asked_spec h k A) as (h1 & o & h2 & -> & _ & W).
+  rewrite forallb_app in NL. apply andb_true_iff in NL. destruct NL as [_ NL]. cbn in NL.
+  apply andb_true_iff in NL. destruct NL as [NL _].
+  destruct W as [[-> _]|(ns & name & -> & _)]; discriminate.
+Qed.
+
+Definition is_cget (e : cev) : bool := match e with CGet _ => true | _ => false end.
+
+Lemma cstep_no_lookup c e : is_cget e = false -> forallb (fun o => negb (is_lookup o)) (snd (cstep c e)) = true.
+Proof.
+  intros H. destruct e as [ns name v|ns name| |k0| |ns|ns]; cbn [cstep]; try discriminate.
+  - destruct (mem_s ns (c_unw c)); reflexivity.
+  - destruct (mem_s ns (c_unw c)); [reflexivity|]. destruct (c_seen c (key_of ns name)); reflexivity.
+  - cbn [snd]. apply forallb_forall. intros o I. apply in_map_iff in I. destruct I as (t & <- & _).
+    unfold sync_op. destruct (c_seen c (task_key t)); reflexivity.
+  - cbn [snd]. apply forallb_forall. intros o I. apply in_map_iff in I. destruct I as (t & <- & _).
+    unfold sync_op. destruct (c_seen c (task_key t)); reflexivity.
+  - destruct (mem_s ns (c_unw c)); [reflexivity|]. cbn [snd]. apply forallb_forall. intros o I.
+    apply in_map_iff in I. destruct I as (t & <- & _). reflexivity.
+  - destruct (mem_s ns (c_unw c)); reflexivity.
+Qed.
+
+Lemma crun_no_lookup h : forall c,
+  forallb (fun e => negb (is_cget e)) h = true -> forallb (fun o => negb (is_lookup o)) (snd (crun c h)) = true.
+Proof.
+  induction h as [|e r IH]; intros c H; cbn [crun]; [reflexivity|].
+  cbn in H. apply andb_true_iff in H. destruct H as [H1 H2]. apply negb_true_iff in H1.
+  pose proof (cstep_no_lookup c e H1) as S. destruct (cstep c e) as [c1 ops]. cbn [snd] in S.
+  specialize (IH c1 H2). destruct (crun c1 r) as [c2 ops']. cbn [snd] in *.
+  rewrite forallb_app, S, IH. reflexivity.
+Qed.
+
+(* Whatever the cluster looks like (any mix of valid, invalid, supported, unsupported Secrets in
+   watched and unwatched namespaces), whatever events, worker runs, start-up steps and namespace
+   changes happen: as long as no resource has looked a Secret up, the secrets directory is empty. *)
+Theorem controller_writes_nothing_unasked cadel U h :
+  hist_ok cadel U gempty (compile h) -> forallb (fun e => negb (is_cget e)) h = true ->
+  files (run cadel (compile h)) = [].
+Proof.
+  intros OK H. apply (no_lookup_no_files cadel U); [exact OK|]. apply crun_no_lookup. exact H.
+Qed.
+
+(* a start-up over a cluster with a referenced and an unreferenced valid TLS Secret, an invalid one
+   and an Opaque one: nothing on disk after preSyncSecrets; after the first lookup exactly that file *)
+Definition ch_startup : list cev :=
+  [CPut "team" "s1" vB; CPut "default" "x" vA; CPut "default" "s2" vAbad; CPut "default" "o" vOpaque; CStart].
+
+Lemma ch_startup_ok :
+  chist_ok cinit ch_startup /\
+  compile ch_startup = [Upsert "team" "s1" vB; Upsert "default" "x" vA; Upsert "default" "s2" vAbad] /\
+  files (run false (compile ch_startup)) = [] /\
+  files (run false (compile (ch_startup ++ [CGet "default/x"]))) = [("default-x", (mode_rw_only, "A"))].
+Proof.
+  split; [cbn; repeat split; auto; try discriminate|].
+  repeat split; vm_compute; reflexivity.
+Qed.
+
+(* REFUTED across a restart (finding F10): the new process starts with an empty store over the
+   surviving directory and nothing sweeps it.  Secret default/x was materialised, is deleted while
+   the process is down; after the restart and the start-up step its file is still there. *)
+Lemma restart_leftover_refuted :
+  let st0 := run false [Upsert "default" "x" vA; Get "default/x"] in
+  let c1 := crestart (mkc (fun _ => None) (fun _ => None) [] [("default", "x")] []) in
+  let st1 := fold_left (step_st false) (snd (cstep c1 CStart)) (restart_state st0) in
+  c_seen c1 "default/x" = None /\ store st1 = [] /\
+  files st1 = [("default-x", (mode_rw_only, "A"))].
+Proof. vm_compute. repeat split; reflexivity. Qed.
